@@ -466,6 +466,14 @@ class Exec:
             return [(r, z3.BoolVal(True), z3.simplify(p.bv - z3.BitVecVal(r.base, 64)))]
         out = []
         bad = []
+        nonnull = [rid for rid in p.regions if rid != 0 and rid in self.regions]
+        if len(nonnull) == 1 and (self.regions[nonnull[0]].kind == 'elems' or not z3.is_app_of(z3.simplify(p.bv), z3.Z3_OP_ITE)):
+            # a pointer derived from exactly one object: it is taken to point into that object, and the access generates a
+            # bounds obligation on the offset (an out-of-object pointer shows up there); NULL-ness is an obligation too
+            r = self.regions[nonnull[0]]
+            if 0 in p.regions:
+                self.ub.append((z3.And(guard, p.bv == 0), '%s through a NULL pointer' % what, fn))
+            return [(r, z3.BoolVal(True), z3.simplify(p.bv - z3.BitVecVal(r.base, 64)))]
         for cond, leaf in self._leaves(p.bv):
             lh = z3.simplify(z3.Extract(63, REGION_SHIFT, leaf))
             if z3.is_bv_value(lh):
@@ -1244,7 +1252,7 @@ class Exec:
     def mem_intrinsic(self, base, args, g, caller):
         n = z3.simplify(args[2])
         if not z3.is_bv_value(n):
-            raise Unsupported('%s with symbolic length in %s' % (base, caller))
+            return self._mem_symbolic(base, args, n, g, caller)
         n = n.as_long()
         if n > 4096:
             raise Unsupported('%s of %d bytes' % (base, n))
@@ -1258,4 +1266,33 @@ class Exec:
         vals = [self.load(Ptr(args[1].bv + z3.BitVecVal(i, 64), args[1].regions), i8, g, caller) for i in range(n)]
         for i, v in enumerate(vals):
             self.store(Ptr(args[0].bv + z3.BitVecVal(i, 64), args[0].regions), v, i8, g, caller)
+        return None
+
+    def _mem_symbolic(self, base, args, n, g, caller):
+        """memcpy/memmove/memset of a symbolic number of bytes between byte-array regions (z3 Lambda arrays)"""
+        dc = self._candidates(args[0], g, base, caller)
+        if len(dc) != 1 or dc[0][0].kind != 'elems' or dc[0][0].elemsize != 1:
+            raise Unsupported('%s with symbolic length outside byte-array regions in %s' % (base, caller))
+        dr, _, doff = dc[0]
+        self._bounds(dr, doff, 0, g, base, caller)
+        size_d = dr.size if not isinstance(dr.size, int) else z3.BitVecVal(dr.size, 64)
+        self.ub.append((z3.And(g, n != 0, z3.Or(z3.UGT(doff, size_d), z3.UGT(n, size_d - doff))), '%s writes outside %s' % (base, dr.name), caller))
+        i = z3.BitVec('i!lam%d' % self.fresh, 64)
+        self.fresh += 1
+        inr = z3.And(z3.UGE(i, doff), z3.ULT(i - doff, n))
+        if base == 'memset':
+            b = self.fit(args[1], 8)
+            newarr = z3.Lambda([i], z3.If(inr, b, z3.Select(dr.array, i)))
+        else:
+            sc = self._candidates(args[1], g, base, caller)
+            if len(sc) != 1 or sc[0][0].kind != 'elems' or sc[0][0].elemsize != 1:
+                raise Unsupported('%s source is not a byte-array region in %s' % (base, caller))
+            sr, _, soff = sc[0]
+            size_s = sr.size if not isinstance(sr.size, int) else z3.BitVecVal(sr.size, 64)
+            self.ub.append((z3.And(g, n != 0, z3.Or(z3.UGT(soff, size_s), z3.UGT(n, size_s - soff))), '%s reads outside %s' % (base, sr.name), caller))
+            if sr is dr and base == 'memcpy':
+                overlap = z3.And(n != 0, z3.ULT(soff, doff + n), z3.ULT(doff, soff + n))
+                self.ub.append((z3.And(g, overlap), 'memcpy with overlapping source and destination in %s' % dr.name, caller))
+            newarr = z3.Lambda([i], z3.If(inr, z3.Select(sr.array, i - doff + soff), z3.Select(dr.array, i)))
+        dr.array = newarr if z3.is_true(z3.simplify(g)) else z3.If(g, newarr, dr.array)
         return None
